@@ -804,6 +804,7 @@ func runC18(r *Run) {
 		r.Sample(map[string]interface{}{"expression": p.e, "datum": describe(p.d), "outcome_without_options": base})
 	}
 	c18AfterCreation(r)
+	c18UnknownNeutralOnBlankLeaves(r)
 	c18TagNames(r)
 	c18UnknownSubstitution(r)
 	c18BigCollectionBudget(r)
